@@ -104,3 +104,31 @@ Example process3_only_closes :
   /\ racc dev_all I2 [w (OAct byp) Running 0 false] = false
   /\ racc dev_all I2 [EvStart a00] = false.
 Proof. vm_compute. auto. Qed.
+
+(* ---- 4. not even the hierarchy part of img_wf survives a recovery IN THE MODEL, with no plugin involved: the crash
+        comes right after the first action is marked; the repair resets action, sequence, block and plan to
+        NotStarted in memory; Resume.v's flush rule (any write equal to the in-memory value is accepted at any time -
+        an over-approximation of when the engine writes repaired objects) lets the sequence be written NotStarted
+        while its action is still durably (Running, 0).  An invariant for the resumed automaton needs a sharper
+        flush rule in Resume.v first. ---- *)
+Definition sh4 : shape :=
+  {| sh_groups := no_groups;
+     sh_blocks := [ {| bs_groups := no_groups; bs_seqs := [[0]]; bs_conc := 1; bs_tol := 0%Z |} ] |}.
+Definition tr4 : list event :=
+  [ w OPlan Running 0 false; w (OBlock 0) Running 0 false; w (OSeq 0 0) Running 0 false; w (OAct a00) Running 0 false ].
+Definition J1 := crash_image sh4 tr4 4.
+Definition J2 := crash_from (fst J1) (snd J1) [w (OSeq 0 0) NotStarted 0 false] 1.
+
+Definition racc4 (ir : dimg * reason) (tr : list event) : bool :=
+  match rinit sh4 (fst ir) (snd ir) with
+  | Some r0 => match rrun dev_none sh4 r0 tr with Some _ => true | None => false end
+  | None => false
+  end.
+
+Example flush_run_accepted : exists s, run sh4 init tr4 = Some s. Proof. vm_compute. eauto. Qed.
+Example flush_breaks_hierarchy :
+  img_wf sh4 (fst J1) = true
+  /\ racc4 J1 [w (OSeq 0 0) NotStarted 0 false] = true
+  /\ ist (fst J2) OPlan = Running /\ ist (fst J2) (OSeq 0 0) = NotStarted /\ ist (fst J2) (OAct a00) = Running
+  /\ img_wf sh4 (fst J2) = false.
+Proof. vm_compute. auto 10. Qed.
